@@ -5,6 +5,10 @@
   `fixed := true` is the model of the CURRENT source; `fixed := false` the model of the pinned snapshot
   (before the five `fix:` commits of this property), used by the `_counterexample` theorems.
   Hash functions are universally quantified parameters.
+  Helpers: Proofs/C03.lean (model = spec), C03Field.lean (ZMod p / ZMod n reading of the Nat arithmetic,
+  square roots, −7 not a cube), C03Group.lean (`SecpGroupLaw`, curve points as a group, k·P), C03Curve.lean
+  (`SecpGroupLaw` from Mathlib's Weierstrass group), C03Ecdsa.lean (sign/verify/recover), C03Der.lean
+  (DER), C03Schnorr.lean (BIP340 signing).
 -/
 import GocoinV.Proofs.C03
 import GocoinV.Proofs.C03Field
